@@ -126,9 +126,14 @@ def _run_case(case):
             raise Violation(f'C15[empty-neutral]: inserting an empty mapping document at position {pos} changes the result from {base!r} to {r!r}{src}')
     # key permutation
     ptexts = [tdoc.render(d) for d in case['perm']]
+    probes.counters['list_index_clipped'] = 0
+    _build(texts)
     r = _build(ptexts)
     if not same(base, r, ordered=False):
-        raise Violation(f'C15[key-permutation]: permuting keys changes the result from {base!r} to {r!r}{src}\npermuted sources:\n' + '\n'.join(ptexts))
+        # open finding: attributed only when, in one of the two builds, an element was written beyond the end of a list that the
+        # merge had pruned before (its index is then clipped, so the outcome depends on the order in which the keys arrive)
+        fid = 'mapping-onto-pruned-list' if probes.counters['list_index_clipped'] else None
+        raise Violation(f'C15[key-permutation]: permuting keys changes the result from {base!r} to {r!r}{src}\npermuted sources:\n' + '\n'.join(ptexts), finding=fid)
     # flag neutral
     mtexts = [tdoc.render(d) for d in case['marked']]
     r = _build(mtexts)
